@@ -22,6 +22,17 @@ for d in sorted(glob.glob(os.path.join(VERIF, 'seeded', 'C*-*'))):
     st = os.path.join(d, 'strengthening.txt')
     first = r1['checks'][prop]
     final = (r2 or r1)['checks'][prop]
+    detected_by = prop
+    for q, v in (r2 or r1)['checks'].items():       # a change filed under one property may break (only) another one
+        if v.get('exit') == 1 and final.get('exit') != 1:
+            final, detected_by = v, q
+    tf = os.path.join(d, 'triage_first.json')
+    first_caught = first['exit'] == 1
+    first_how = 'the confirmation run against /repo (result.json)'
+    if os.path.exists(tf):
+        t = json.load(open(tf))
+        first_caught = None if t['check_exit_first_version'] is None else t['check_exit_first_version'] == 1
+        first_how = t['how']
     m = {'id': sid, 'breaks_property': prop,
          'source': 'independent sub-agent given only the property text and a scratch worktree of /repo',
          'needs_to_manifest': note,
@@ -29,8 +40,8 @@ for d in sorted(glob.glob(os.path.join(VERIF, 'seeded', 'C*-*'))):
                        'demo_exit_with_change': r1.get('demo_with_change'), 'demo_exit_without_change': r1.get('demo_without_change')},
          'ran': 'harness/seedtest.py seeded/%s %s  (git apply to /repo, pytest, demo, ./check %s --tier quick, git reset --hard, demo)' % (sid, prop, prop),
          'check_result': {'exit': final['exit'], 'first_replay': final.get('first_replay'), 'wall_s': final.get('wall_s')},
-         'caught_by_first_version_of_the_check': first['exit'] == 1,
+         'caught_by_first_version_of_the_check': first_caught, 'first_version_measured_by': first_how, 'detected_by': detected_by if detected_by != prop else None,
          'strengthening': open(st).read().strip() if os.path.exists(st) else None}
     with open(meta, 'w') as f:
         json.dump(m, f, indent=1, ensure_ascii=False)
-    print(sid, 'detected' if final['exit'] == 1 else 'MISSED', '(first run: %s)' % ('detected' if first['exit'] == 1 else 'missed'))
+    print(sid, 'detected' if final['exit'] == 1 else 'MISSED', '(first version: %s)' % first_caught)
